@@ -451,7 +451,7 @@ func (spt *Tracker) recoverWithPinInfo(ctx context.Context, pi *api.PinInfo) (*a
 	return spt.Status(ctx, pi.Cid), nil
 }
 
-func (spt *Tracker) ipfsStatusAll(ctx context.Context) (map[cid.Cid]*api.PinInfo, error) {
+func (spt *Tracker) ipfsStatusAll(ctx context.Context, pinType string) (map[cid.Cid]*api.PinInfo, error) {
 	ctx, span := trace.StartSpan(ctx, "tracker/stateless/ipfsStatusAll")
 	defer span.End()
 
@@ -461,7 +461,7 @@ func (spt *Tracker) ipfsStatusAll(ctx context.Context) (map[cid.Cid]*api.PinInfo
 		"",
 		"IPFSConnector",
 		"PinLs",
-		"recursive",
+		pinType,
 		&ipsMap,
 	)
 	if err != nil {
@@ -522,10 +522,16 @@ func (spt *Tracker) localStatus(ctx context.Context, incExtra bool, filter api.T
 		}
 	}
 
-	var localpis map[cid.Cid]*api.PinInfo
+	var localpis, localDirectPis map[cid.Cid]*api.PinInfo
 	// Only query IPFS if we want to status for pinned items
 	if filter.Match(api.TrackerStatusPinned | api.TrackerStatusUnexpectedlyUnpinned) {
-		localpis, err = spt.ipfsStatusAll(ctx)
+		localpis, err = spt.ipfsStatusAll(ctx, "recursive")
+		if err != nil {
+			logger.Error(err)
+			return nil, err
+		}
+		// Pins in direct mode are only listed with type=direct.
+		localDirectPis, err = spt.ipfsStatusAll(ctx, "direct")
 		if err != nil {
 			logger.Error(err)
 			return nil, err
@@ -535,6 +541,9 @@ func (spt *Tracker) localStatus(ctx context.Context, incExtra bool, filter api.T
 	pininfos := make(map[cid.Cid]*api.PinInfo, len(statePins))
 	for _, p := range statePins {
 		ipfsInfo, pinnedInIpfs := localpis[p.Cid]
+		if p.MaxDepth == 0 { // direct pin: same check as Status() does
+			ipfsInfo, pinnedInIpfs = localDirectPis[p.Cid]
+		}
 		// base pinInfo object - status to be filled.
 		pinInfo := api.PinInfo{
 			Cid:  p.Cid,
